@@ -710,7 +710,8 @@ func init() {
 		CaseType: "c16_case",
 		CaseFn:   "C16_case",
 		ModelFn:  "C16_model",
-		Rule: "one case is the shared-state inventory of the repository's source (every package-level var of every non-test package and every post-init write, address-of, append destination or pointer-receiver call on one; registry.table accesses with their lock status), judged by shared_ok; " +
+		Rule: "one case is the shared-state inventory of the repository's source (every package-level var of every non-test package and every post-init write, address-of, append destination or pointer-receiver call on one; accesses to the fields of mutex-carrying variables - registry.table - with their lock status: lexically between Lock and Unlock of the variable's own mutex, exclusive lock for mutations, or in an unexported helper all of whose call sites are so locked), judged by shared_ok; " +
+			"assumed of the standard library: sync and sync/atomic types synchronise, and the methods of *strings.Replacer and of *regexp.Regexp (except Longest) are safe for concurrent use as documented, so calls of them on package-level variables are not counted as mutation; " +
 			"every other case is one child process under the race detector: 8-64 goroutines that each build their own tables (1-6 columns, 0-6 rows, separators, multi-line / markup / non-ASCII / non-string items, alignment and skipable column properties, built by AddRowItems, NewRow+AddRow, NewRowSizedFor) and render each in csv, json, markdown, html (plain; Id/Class/Caption/TemplateName/row-class generator, rendered twice through the wrapper's cached template), texttable (default decoration, an unknown name, RenderTo) plus the registered decorations by name / by value and auto.Render for the listed styles - all of them for every table in the cases tagged every-table-in-every-format=true, otherwise a third / a quarter per table rotating with (goroutine, table) so that every run still renders every decoration and style concurrently - " +
 			"while 1-8 reader goroutines call RegisteredDecorationNames / Named / auto.ListStyles; the same programmes run alone twice before the goroutines start; goroutine count, GOMAXPROCS (1..16), tables, iterations vary by seed. " +
 			"A case is non-trivial when at least two goroutines rendered concurrently; distinct = distinct (seed, goroutines, GOMAXPROCS, tables, iterations, readers, formats, outcome)",
